@@ -26,6 +26,15 @@ class SymByteArray(object):
     def append(self, x):
         self.buf.append(x)
 
+    def __iadd__(self, data):
+        self.extend(data)
+        return self
+
+    def __add__(self, data):
+        r = SymByteArray(self.buf)
+        r.extend(data)
+        return r
+
     def __getitem__(self, k):
         if isinstance(k, slice):
             return SymBytes(tuple(self.buf[k]))
